@@ -87,10 +87,10 @@ impl<B: TextWriter> InfinityParser<B> {
     }
 
     pub fn end(self) -> Result<ParsedInfinity, ParseError> {
-        debug_assert!(
-            self.error.is_none(),
-            "attempt to complete a parser with an error context"
-        );
+        // If parsing already failed then the parser stays failed
+        if let Some(err) = self.error {
+            return Err(err);
+        }
 
         match self.expecting {
             // If we just encounter `inf` then we still have a valid infinity
@@ -99,6 +99,10 @@ impl<B: TextWriter> InfinityParser<B> {
                 str::from_utf8(self.expecting.get(0..1).unwrap_or(b"")).unwrap(),
             )),
         }
+    }
+
+    pub(in crate::text) fn has_error(&self) -> bool {
+        self.error.is_some()
     }
 
     pub fn context(&mut self, err: ParseError) -> fmt::Error {
@@ -117,6 +121,10 @@ impl<B: TextWriter> InfinityParser<B> {
 
 impl<B: TextWriter> Write for InfinityParser<B> {
     fn write_str(&mut self, s: &str) -> fmt::Result {
+        if self.has_error() {
+            return Err(fmt::Error);
+        }
+
         self.parse_ascii(s.as_bytes())
             .map_err(|err| self.context(err))
     }
